@@ -866,13 +866,74 @@ func (c *Ctx) mkError(msg *StrVal) Value {
 	return c.CallFn(ep.Func("New"), []Value{msg}, nil)
 }
 
-func (c *Ctx) fmtResult(a []Value, fmtIdx int) *StrVal {
-	if fmtIdx < len(a) {
-		if s, ok := a[fmtIdx].(*StrVal); ok {
-			return s
+// goValue converts a concrete interpreter value to a Go value fmt can print; ok=false if symbolic/unsupported
+func (c *Ctx) goValue(v Value) (interface{}, bool) {
+	switch x := v.(type) {
+	case Iface:
+		if x.T == nil {
+			return nil, true
 		}
+		if p, isPtr := x.V.(Ptr); isPtr && !p.IsNil() {
+			if b, isBig := p.load().(*BigVal); isBig && b.T.IsConst() {
+				if b.T.S.K == KBV {
+					return b.T.SignedVal(), true
+				}
+				return b.T.C, true
+			}
+		}
+		_, signed, isInt := intInfo(x.T)
+		if t, isT := x.V.(*Term); isT && t.IsConst() {
+			switch {
+			case t.S.K == KBool:
+				return t.C.Sign() != 0, true
+			case t.S.K == KFP:
+				return t.F, true
+			case isInt && signed:
+				if t.S.K == KBV {
+					return t.SignedVal().Int64(), true
+				}
+				return t.C.Int64(), true
+			case isInt:
+				return t.C.Uint64(), true
+			}
+		}
+		if sv, isS := x.V.(*StrVal); isS {
+			if cs, ok := sv.concrete(); ok {
+				return cs, true
+			}
+		}
+		return nil, false
 	}
-	return c.str("<fmt>")
+	return nil, false
+}
+
+// fmtResult models fmt.Sprintf: exact when the format and every argument are concrete scalars / strings
+// (verbs are then interpreted by the real fmt), otherwise the format string itself stands for the result.
+func (c *Ctx) fmtResult(a []Value, fmtIdx int) *StrVal {
+	if fmtIdx >= len(a) {
+		return c.str("<fmt>")
+	}
+	fs, ok := a[fmtIdx].(*StrVal)
+	if !ok {
+		return c.str("<fmt>")
+	}
+	format, conc := fs.concrete()
+	if !conc || fmtIdx+1 >= len(a) {
+		return fs
+	}
+	args, isSlice := a[fmtIdx+1].(SliceVal)
+	if !isSlice {
+		return fs
+	}
+	var gargs []interface{}
+	for i := 0; i < args.Len; i++ {
+		gv, ok := c.goValue(args.get(i))
+		if !ok {
+			return fs
+		}
+		gargs = append(gargs, gv)
+	}
+	return c.str(fmt.Sprintf(format, gargs...))
 }
 
 func registerLibModels() {
@@ -882,7 +943,24 @@ func registerLibModels() {
 	m["fmt.Sprintln"] = func(c *Ctx, fn *ssa.Function, a []Value) Value { return c.str("<fmt.Sprintln>\n") }
 	m["fmt.Errorf"] = func(c *Ctx, fn *ssa.Function, a []Value) Value { return c.mkError(c.fmtResult(a, 0)) }
 	zeroErr := func(c *Ctx, fn *ssa.Function, a []Value) Value { return TupleVal{c.goInt(0), Iface{}} }
-	m["fmt.Fprintf"] = zeroErr
+	m["fmt.Fprintf"] = func(c *Ctx, fn *ssa.Function, a []Value) Value {
+		// format (exactly when everything is concrete, see fmtResult) and hand the bytes to the writer's Write
+		w, ok := a[0].(Iface)
+		if !ok || w.T == nil {
+			return TupleVal{c.goInt(0), Iface{}}
+		}
+		str := c.fmtResult(a, 1)
+		wm := c.Prog.LookupMethod(w.T, nil, "Write")
+		if wm == nil {
+			return TupleVal{c.goInt(int64(len(str.B))), Iface{}}
+		}
+		arr := &ArrayVal{E: make([]Value, len(str.B))}
+		for i, b := range str.B {
+			arr.E[i] = b
+		}
+		buf := SliceVal{Base: Ptr{C: c.newCell(arr, "fprintf")}, Len: len(str.B), Cap: len(str.B)}
+		return c.CallFn(wm, []Value{w.V, buf}, nil)
+	}
 	m["fmt.Fprintln"] = zeroErr
 	m["fmt.Fprint"] = zeroErr
 	m["fmt.Printf"] = zeroErr
